@@ -1,5 +1,6 @@
 import BreezyVerif.Model.C43
 import BreezyVerif.Lemmas.C43C
+import BreezyVerif.Lemmas.C43H
 /-!
 C43 — theorems.
 -/
@@ -322,18 +323,23 @@ theorem renameSteps_ok (ign : List String) (rs : List Renamed) (k : Nat)
         · simp at h
       · rcases List.mem_cons.mp h with h | h
         · subst h
+          have hn : ignored ign r.new = false := by rw [← hb r List.mem_cons_self]; exact ho
           simp [Step.paths] at hq
-          rcases hq with rfl | rfl
+          rcases hq with rfl | rfl | rfl
           · exact Or.inl ho
           · exact Or.inr ⟨k, rfl⟩
+          · exact Or.inl hn
         · exact ih' st h q hq
 
 /-- **Ignored paths are never addressed.**  For every tree, delta and ignore
 list in which no rename (and no kind change below a renamed directory) crosses
 the ignore boundary, every remote path named
 by a step of the incremental plan (either discipline, either symlink variant)
-is a path that is not ignored, or one of the temporary names; and a full
-upload names only paths that are not ignored.  (`ignored_rename_boundary_witness`
+(the new path of a rename included) is a path that is not ignored, or one of
+the temporary names; and a full upload names only paths that are not ignored.
+The paths of `finish_renames` / `finish_deletions` are those recorded by the
+`stage` / `rmdirMaybe` steps.  The statement about the remote STATE is
+`incremental_upload_reaches_tree_partial` (ignored paths keep their listing).  (`ignored_rename_boundary_witness`
 shows what happens when a rename does cross the boundary.) -/
 theorem ignored_never_addressed (c : Cfg) (ign : List String) (t : Tree) (d : Delta)
     (hb : ∀ r ∈ d.renamed, ignored ign r.old = ignored ign r.new)
@@ -389,5 +395,142 @@ theorem ignored_never_addressed (c : Cfg) (ign : List String) (t : Tree) (d : De
     cases hk : e.kind <;> rw [hk] at hs <;> subst hs <;> simp [Step.paths] at hq <;> subst hq <;> exact h2.2
 
 example : ∀ r ∈ ([⟨["a"], ["b"], false⟩] : List Renamed), ignored ["x"] r.old = ignored ["x"] r.new := by decide
+
+/-! ## uploads reach the tree (adds, deletes, kind changes, modifications, the ignore list) -/
+
+/-- **A full upload onto an empty remote yields exactly the tree.**  For every
+uploader variant, every ignore list and every well-formed tree (any size and
+depth; `treeWF`: distinct non-empty paths, parents listed before their children
+as `iter_entries_by_dir` does, the two special names not directories) the full
+upload succeeds and the remote listing is, path by path, the tree's listing
+(kind, content, executable bit, link target) on the paths that are neither
+ignored nor one of the two special files, and empty everywhere else. -/
+theorem full_upload_onto_empty_reaches_tree (c : Cfg) (ign : List String) (t : Tree) (hbad : c.badLinks = [])
+    (hwf : treeWF t = true) :
+    ∃ r', uploadFull c ign t (.dir []) = (r', none) ∧
+      (∀ q, q ≠ [] → look r' q = if ignored ign q || special q then none else t.look q) ∧
+      Matches ign t r' ∧ Clean ign r' := by
+  obtain ⟨r', h1, h2⟩ := uploadFull_empty c ign t hbad hwf
+  exact ⟨r', h1, h2.2, h2.matches.1, h2.matches.2.1⟩
+
+/-- a tree with nested directories, an executable, a symlink below the top level and the ignore file -/
+def exTree1 : Tree :=
+  [⟨[".bzrignore-upload"], .file, "b\n", false, ""⟩, ⟨["a"], .dir, "", false, ""⟩, ⟨["f"], .file, "1", true, ""⟩,
+   ⟨["k"], .file, "k", false, ""⟩, ⟨["a", "b"], .dir, "", false, ""⟩, ⟨["a", "l"], .symlink, "", false, "t1"⟩,
+   ⟨["a", "x"], .dir, "", false, ""⟩, ⟨["a", "b", "g"], .file, "2", false, ""⟩, ⟨["a", "x", "y"], .file, "3", false, ""⟩]
+
+example : treeWF exTree1 = true := by decide
+
+/-- **An incremental upload of a delta without renames reaches the tree.**  For
+the uploader as it is now (robust symlinks; either rename discipline, either
+kind-change variant), every ignore list, every old tree, every well-formed new
+tree and every delta that is a correct rename-free delta between them
+(`deltaOK`: removals - whole subtrees, parents listed first -, kind changes
+file/dir/symlink, additions - parents first, a path may be removed and added
+again -, content / mode / target modifications; renames only where both sides are
+ignored), on EVERY remote that shows the old tree on the paths that are not
+ignored (`Matches`; ignored remote content is arbitrary except directly below a
+directory that is removed, `NoIgnoredBelow`):
+the upload succeeds, the remote then shows the new tree on every path that is
+not ignored, every ignored path shows what it showed before, and the root is
+still a directory.
+
+Partial: deltas with renames are not covered (see
+`upload_renames_reach_tree_partial` for top-level renames and the witnesses for
+what goes wrong when renames meet other changes); the two special files must
+not be removed or change kind (`special_file_removed_witness`). -/
+theorem incremental_upload_reaches_tree_partial (c : Cfg) (ign : List String) (old new : Tree) (d : Delta)
+    (remote : Node) (hrob : c.robustSymlinks = true) (hbad : c.badLinks = []) (hnew : treeWF new = true)
+    (hd : deltaOK ign old new d = true) (hroot : look remote [] = some .dir)
+    (hm : Matches ign old remote) (hig : NoIgnoredBelow ign d remote) :
+    ∃ r', uploadInc c ign new d remote = (r', none) ∧ Matches ign new r' ∧
+      (∀ q, ignored ign q = true → look r' q = look remote q) ∧ look r' [] = some .dir :=
+  uploadInc_rename_free c ign old new d remote hrob hbad hnew hd hroot hm hig
+
+/-- the exact listing after such an upload: changed paths show the new tree,
+removed paths nothing, every other path - ignored or not - what it showed -/
+theorem incremental_upload_frame (c : Cfg) (ign : List String) (old new : Tree) (d : Delta)
+    (remote : Node) (hrob : c.robustSymlinks = true) (hbad : c.badLinks = []) (hnew : treeWF new = true)
+    (hd : deltaOK ign old new d = true) (hroot : look remote [] = some .dir)
+    (hm : Matches ign old remote) (hig : NoIgnoredBelow ign d remote) :
+    ∃ r', uploadInc c ign new d remote = (r', none) ∧
+      ∀ q, look r' q =
+        if q ∈ mdL ign d ∨ q ∈ adL ign d ∨ q ∈ (kcL ign d).map (·.path) then new.look q
+        else if q ∈ (rmL ign d).map (·.path) then none else look remote q :=
+  uploadInc_look c ign old new d remote hrob hbad hnew hd hroot hm hig
+
+/-- the successor of `exTree1`: the subtree `a/b` and `k` removed (deferred
+directory deletion), `f` modified, `a/l` re-targeted, `a/x` turned into a file
+(its child removed), a new directory with a file and a nested symlink added, `k`
+removed and `m` added below the ignored name -/
+def exTree2 : Tree :=
+  [⟨[".bzrignore-upload"], .file, "b\n", false, ""⟩, ⟨["a"], .dir, "", false, ""⟩, ⟨["f"], .file, "11", false, ""⟩,
+   ⟨["n"], .dir, "", false, ""⟩, ⟨["a", "l"], .symlink, "", false, "t2"⟩, ⟨["a", "x"], .file, "x", false, ""⟩,
+   ⟨["n", "h"], .file, "4", true, ""⟩, ⟨["n", "s"], .symlink, "", false, "t1"⟩]
+
+def exDelta12 : Delta :=
+  { removed := [⟨["a", "b"], .dir⟩, ⟨["a", "b", "g"], .file⟩, ⟨["a", "x", "y"], .file⟩, ⟨["k"], .file⟩],
+    kindChanged := [⟨["a", "x"], ["a", "x"], .dir, .file⟩],
+    added := [["n"], ["n", "h"], ["n", "s"]],
+    modified := [["a", "l"], ["f"]] }
+
+example : treeWF exTree2 = true ∧ deltaOK [] exTree1 exTree2 exDelta12 = true
+    ∧ deltaOK ["b"] exTree1 exTree2 exDelta12 = true := by decide
+
+/-- **Any sequence of uploads without renames keeps the remote equal to the
+tree.**  Start from the empty remote, upload the first tree in full (what
+`upload_tree` does when there is no marker), then any number of trees
+incrementally, each with a correct rename-free delta from the tree before
+(`seqOK`), under one ignore list: no upload fails, and the remote finally shows
+the last tree on every path that is not ignored and nothing on ignored paths.
+(Induction over the sequence with the invariant `Matches ∧ Clean`.)
+
+Partial: sequences whose deltas contain renames are not covered. -/
+theorem upload_sequence_reaches_tree_partial (c : Cfg) (ign : List String) (hrob : c.robustSymlinks = true)
+    (hbad : c.badLinks = [])
+    (t0 : Tree) (steps : List (Tree × Delta)) (h0 : treeWF t0 = true) (hok : seqOK ign t0 steps = true) :
+    ∃ r0 r, uploadFull c ign t0 (.dir []) = (r0, none) ∧ uploadSeq c ign r0 steps = (r, none) ∧
+      Matches ign (lastTree t0 steps) r ∧ Clean ign r := by
+  obtain ⟨r0, h1, h2⟩ := uploadFull_empty c ign t0 hbad h0
+  obtain ⟨r, f1, f2, f3⟩ := uploadSeq_spec c ign hrob hbad steps t0 r0 hok h2.matches.1 h2.matches.2.1 h2.matches.2.2
+  exact ⟨r0, r, h1, f1, f2, f3⟩
+
+example : seqOK ["b"] exTree1 [(exTree2, exDelta12), (exTree2, {})] = true := by decide
+
+/-- what `Matches` means on a concrete remote: the result of the two uploads is
+the second tree (and the ignore file, which the full upload skipped, is absent) -/
+example :
+    let c : Cfg := { renames := .childrenFirst, robustSymlinks := true, kindChangeAtNew := true }
+    let r := uploadSeq c [] (uploadFull c [] exTree1 (.dir [])).1 [(exTree2, exDelta12)]
+    r.2 = none ∧ look r.1 ["a", "x"] = some (.file "x" false) ∧ look r.1 ["a", "b"] = none ∧
+      look r.1 ["n", "s"] = some (.link "t1") ∧ look r.1 ["f"] = some (.file "11" false) ∧
+      look r.1 [".bzrignore-upload"] = none := by decide
+
+/-- **Symlink paths are not URL-escaped** (as found): `upload_symlink` is the one
+remote operation that does not go through `urlutils.escape`; for a link whose
+path the transport cannot take unescaped (`badLinks`) the upload stops with
+InvalidURL after `_force_clear` has already removed what was there; an uploader
+that escapes (`badLinks = []`) succeeds. -/
+theorem unescaped_symlink_witness :
+    let t : Tree := [⟨["u"], .symlink, "", false, "t2"⟩, ⟨["z"], .file, "1", false, ""⟩]
+    let remote : Node := .dir [("u", .link "t1")]
+    let c : Cfg := { renames := .childrenFirst, robustSymlinks := true, kindChangeAtNew := true }
+    let r := uploadFull { c with badLinks := [["u"]] } [] t remote
+    r.2 = some .invalidURL ∧ present r ["u"] = false ∧ present r ["z"] = false ∧
+    (uploadFull c [] t remote).2 = none ∧ isLink (uploadFull c [] t remote) ["u"] "t2" = true := by decide
+
+/-- **The special files.**  A full upload does not copy `.bzrignore-upload` (nor
+`.bzrignore`); an incremental upload treats them like any file.  Removing one of
+them after a full upload therefore deletes a remote file that was never
+created: NoSuchFile, the upload stops (reproduced on the real code). -/
+theorem special_file_removed_witness :
+    let c : Cfg := { renames := .childrenFirst, robustSymlinks := true, kindChangeAtNew := true }
+    let t1 : Tree := [⟨[".bzrignore-upload"], .file, "x", false, ""⟩, ⟨["a"], .file, "1", false, ""⟩]
+    let t2 : Tree := [⟨["a"], .file, "1", false, ""⟩]
+    let r1 := uploadFull c [] t1 (.dir [])
+    let r2 := uploadInc c [] t2 { removed := [⟨[".bzrignore-upload"], .file⟩] } r1.1
+    r1.2 = none ∧ r2.2 = some .noSuchFile ∧
+      (uploadInc { c with tolerantSpecialDelete := true } [] t2 { removed := [⟨[".bzrignore-upload"], .file⟩] } r1.1).2 = none := by
+  decide
 
 end BreezyVerif.C43
